@@ -68,6 +68,9 @@ func runC11(p *Prog, r *Report) {
 	r.Describe("C11.6/cond", "condition variables: every Wait loop re-checks, inside the loop, a condition its closer falsifies; closers broadcast on every path that sets it; Signal only where a single library goroutine can wait (no lost wake-ups between concurrent callers)")
 	e4CondWaits(p, r, "C11.6/cond")
 
+	r.Describe("C11.7/listen-vs-close", "concurrent Listen and Close on one listener: the closed test and the bind are one critical section")
+	coreListenAtomic(p, r, "C11.7/listen-vs-close")
+
 	r.Describe("C11.3/E1", "no lock is acquired while already held (directly or through a callee)")
 	e1Obligations(p, r, "C11.3/E1", map[string]bool{"double-lock": true, "callee-relock": true})
 }
